@@ -61,6 +61,53 @@ class Direct:
         return False
 
 
+class BoolIs:
+    """The branch tests the *boolean value* returned by a call matching one of `calls` (seen through
+    negation, `?`, casts and phi - but not through a discriminant: the `?` on a `Result<bool>` is a
+    different question) and the passing edge must be the one on which that value equals `value`.
+    Used where the property needs the predicate to hold, not merely to be consulted
+    (`sampled.contains(h) || daser.want_to_prune(h)?`)."""
+
+    def __init__(self, calls, value=True, args=(), name=None):
+        self.calls = calls if isinstance(calls, (list, tuple)) else [calls]
+        self.value = value
+        self.args = args
+        self.name = name or "bool(%s) is %s" % (self.calls, value)
+
+    def call_pats(self):
+        return []
+
+    def find(self, e, ctx, env=None, neg=False, depth=0):
+        """None, or the negation parity under which the matching call's value is tested."""
+        if depth > 10:
+            return None
+        tag = e[0]
+        if tag == "call":
+            if any(glob(g, e[1]) or glob(g, e[2]) for g in self.calls):
+                if not self.args or (e[3] and has_all(ctx.leaves(e[3][0], env), self.args)):
+                    return neg
+            tl = std_tail(e[2])
+            if tl in ("Try::branch",) or tl in TRANSPARENT_TAILS:
+                return self.find(e[3][0], ctx, env, neg, depth + 1) if e[3] else None
+            if tl == "Not::not":
+                return self.find(e[3][0], ctx, env, not neg, depth + 1) if e[3] else None
+            return None
+        if tag == "un" and e[1] == "Not":
+            return self.find(e[2], ctx, env, not neg, depth + 1)
+        if tag == "cast":
+            return self.find(e[1], ctx, env, neg, depth + 1)
+        if tag in ("proj", "part"):
+            return self.find(e[2], ctx, env, neg, depth + 1)
+        if tag == "phi":
+            rs = [self.find(a, ctx, env, neg, depth + 1) for a in e[1]]
+            rs = [r for r in rs if r is not None]
+            return rs[0] if rs and all(r == rs[0] for r in rs) else None
+        return None
+
+    def matches_expr(self, e, ctx, env=None):
+        return self.find(e, ctx, env) is not None
+
+
 class AnyOf:
     """A branch matches when it matches any of the given specs."""
 
@@ -443,6 +490,11 @@ class Guards:
             if self.via_callee(e, spec):
                 return dict(via_callee=True)
             return None
+        if isinstance(spec, BoolIs):
+            ng = spec.find(e, self.ctx, self.env)
+            if ng is None or self.body.blocks[b]["t"].get("dty") != "bool":
+                return None
+            return dict(boolis_neg=ng)
         if spec.matches_expr(e, self.ctx, self.env):
             if getattr(spec, "within", None):
                 ls = set()
@@ -496,6 +548,12 @@ class Guards:
                                 okp = False
                     if not okp:
                         guards[b] = ([], dict(bad_polarity=True, ops=info["ops"]))
+                        continue
+                if isinstance(spec, BoolIs):
+                    t = self.body.blocks[b]["t"]
+                    okp = all(edge_truth(t, lab) is not None and (edge_truth(t, lab) != info["boolis_neg"]) == spec.value for d, lab in passing)
+                    if not okp:
+                        guards[b] = ([], dict(bad_polarity=True))
                         continue
                 guards[b] = (passing, info)
                 for d, _ in passing:
